@@ -845,7 +845,7 @@ pub fn at_rest(rep: &mut Report, thorough: bool) {
         m.accept_welcome(&w).expect("accept");
     }
     let (Mdk::Mem(ym), Mdk::Mem(vm)) = (&y.mdk, &v.mdk) else { return };
-    let big = format!("{C_BIG}{}", "0123456789abcdef".repeat(if thorough { 12_000 } else { 3_000 }));
+    let big = format!("{C_BIG}{}", "0123456789abcdef".repeat(if thorough { 3_600 } else { 2_000 }));
     // the events X will process
     let m1 = ym.create_message(&gid, rumor(&y.keys, &format!("{C_MSG} from y"), 1_700_000_001)).expect("m1");
     let m2 = vm.create_message(&gid, rumor(&v.keys, &big, 1_700_000_002)).expect("m2");
